@@ -26,6 +26,12 @@ fn dispatch(op: &str, arg: &Value) -> Result<Value, String> {
         "upfile" => upfile::op_upfile(arg),
         "upbackup" => upbackup::op_upbackup(arg),
         "listdir" => listdir::op_listdir(arg),
+        "encrun" => {
+            if let Some(p) = arg.get("path").and_then(|x| x.as_str()) { std::env::set_var("PATH", p); }
+            Ok(crate::priv_encryptor::ext_run(arg.get("passphrase").and_then(|x| x.as_str()).unwrap_or("pp"),
+                arg.get("size").and_then(|x| x.as_u64()).unwrap_or(0) as usize,
+                arg.get("caller").and_then(|x| x.as_str()).unwrap_or("ok")))
+        },
         "cfgload" => cfg::op_cfgload(arg),
         "cfgpath" => cfg::op_cfgpath(arg),
         "verify" => verify::op_verify(arg),
